@@ -5,7 +5,7 @@ Contracts for tola.assembly.overlap_result.OverlapResult (C18, C12, C02).
 import z3
 
 from pyvc import smt
-from pyvc.spec import LoopSpec, contract, forall
+from pyvc.spec import LoopSpec, contract, forall, forall2
 from pyvc.values import BOOL, FRAG, GAP, INT, NONE, ROW, STR, TList, TOpt, TRef, TSet
 
 from .scaffold import fresh_list, same_repr, same_rows, scaffold_fields
@@ -92,3 +92,359 @@ class _:
     pure = staticmethod(
         lambda o, s: isect_size(s.bait.start, s.bait.end, s.end - s.rows[-1].length + 1, s.end)
     )
+
+
+# =========================================================================================
+# C18: "the reported start..end span always equals the scaffold coordinates covered by the remaining
+# rows, the rows remain a contiguous run of the source scaffold in which only the terminal fragments
+# may have been shortened, no terminal gap is left behind"
+#
+# Ghost state of an OverlapResult: g_src (the row list of the scaffold it was cut from), the window
+# g_lo..g_hi of source rows it still covers and how many bases were trimmed from the scaffold-start
+# side of the first row (g_ts) and from the scaffold-end side of the last row (g_te).
+
+
+def valid_src(src):
+    return forall(lambda k: z3.Implies(z3.And(0 <= k, k < src.len), src[k].length >= 1))
+
+
+def shortened(r, s, a, b):
+    """row r is source row s with a bases removed on the scaffold-start side and b on the scaffold-end
+    side (which fragment coordinate moves depends on the strand, as in trim_fragment)"""
+    return z3.Or(
+        z3.And(r.z == s.z, a == 0, b == 0),
+        z3.And(
+            r.is_frag, s.is_frag, r.name == s.name, r.strand == s.strand, a >= 0, b >= 0,
+            z3.If(s.strand == 1,
+                  z3.And(r.start == s.start + a, r.end == s.end - b),
+                  z3.And(r.start == s.start + b, r.end == s.end - a)),
+        ),
+    )
+
+
+def wf(s, stamp=None, src=None):
+    """stamp: allocation stamp of the state wf is evaluated in (every Fragment object reachable from the
+    result was created before it); defaults to the stamp of the view's own state.
+    src: view of the source row list to read (default: s.g_src in s's own state).  Postconditions pass
+    the pre-state view - the source list is never written (clause `source_untouched`), and reading it
+    through the pre-state keeps store chains out of the quantified formulas."""
+    stamp = s.st.ralloc if stamp is None else stamp
+    rows = s.rows
+    src = s.g_src if src is None else src
+    lo, hi, ts, te = s.g_lo, s.g_hi, s.g_ts, s.g_te
+    n = rows.len
+    nonempty = z3.And(
+        0 <= lo, lo <= hi, hi < src.len, n == hi - lo + 1, ts >= 0, te >= 0,
+        forall(lambda k: z3.Implies(z3.And(0 < k, k < n - 1), rows[k].z == src[lo + k].z)),
+        z3.If(
+            n == 1,
+            shortened(rows[0], src[lo], ts, te),
+            z3.And(shortened(rows[0], src[lo], ts, 0), shortened(rows[n - 1], src[hi], 0, te)),
+        ),
+        s.start == 1 + src.cum(lo) + ts,
+        s.end == src.cum(hi + 1) - te,
+        rows[0].is_frag,
+        rows[n - 1].is_frag,
+        # identity: the terminal rows are objects that existed before `stamp`, and two different
+        # positions never hold the same Fragment object
+        rows[0].oid < stamp,
+        rows[n - 1].oid < stamp,
+        z3.Implies(n > 1, rows[0].z != rows[n - 1].z),
+        forall(lambda k: z3.Implies(z3.And(0 < k, k < n - 1), z3.And(rows[0].z != src[lo + k].z, rows[n - 1].z != src[lo + k].z))),
+    )
+    return z3.And(valid_src(src), distinct_frags(src, stamp), z3.Not(rows.same(src)), n >= 0,
+                  z3.If(n == 0, s.start == s.end + 1, nonempty))
+
+
+def wf_parts(s, prefix="wf", src=None):
+    """the conjuncts of wf with labels (one obligation each)"""
+    f = wf(s, src=src)
+    out = []
+
+    def walk(g, path):
+        if z3.is_and(g):
+            for i, c in enumerate(g.children()):
+                walk(c, f"{path}.{i}")
+        elif z3.is_app_of(g, z3.Z3_OP_ITE) and z3.is_bool(g):
+            c, a, b = g.children()
+            walk(z3.Implies(c, a), path + ".then")
+            walk(z3.Implies(z3.Not(c), b), path + ".else")
+        elif z3.is_implies(g) and z3.is_and(g.arg(1)):
+            for i, c in enumerate(g.arg(1).children()):
+                walk(z3.Implies(g.arg(0), c), f"{path}.{i}")
+        else:
+            out.append((path, g))
+
+    walk(f, prefix)
+    return out
+
+
+def distinct_frags(src, stamp):
+    """input validity of the source scaffold: it does not list the same Fragment object twice"""
+    return z3.And(
+        forall2(lambda i, j: z3.Implies(z3.And(0 <= i, i < j, j < src.len, src[i].is_frag), src[i].z != src[j].z)),
+        forall(lambda k: z3.Implies(z3.And(0 <= k, k < src.len, src[k].is_frag), src[k].oid < stamp)),
+    )
+
+
+GHOSTS = ["g_src", "g_lo", "g_hi", "g_ts", "g_te"]
+
+
+def set_ghost(st, ref, **vals):
+    from pyvc.spec import field_map, unview
+
+    for attr, val in vals.items():
+        name, m, ty = field_map(st, "OverlapResult", attr)
+        st.heap[name] = z3.Store(m, unview(ref), unview(val))
+
+
+def ghost_same(o, n, names):
+    return z3.And(*[getattr(n.self, g) == getattr(o.self, g) if g != "g_src" else n.self.g_src.same(o.self.g_src) for g in names])
+
+
+def source_untouched(o, n):
+    """the source scaffold's row list is not written by any OverlapResult operation"""
+    a, b = o.self.g_src, n.self.g_src
+    return z3.And(b.same(a), b.arr == a.arr, b.lo == a.lo, b.hi == a.hi)
+
+
+@contract(f"{M}.discard_start", properties=("C18", "C01"))
+class _:
+    params = {"self": OR}
+    result = NONE
+
+    @staticmethod
+    def requires(o):
+        return [("wf", wf(o.self)), ("nonempty", o.self.rows.len > 0)]
+
+    @staticmethod
+    def modifies(o):
+        return [("list", ROW, o.self.rows), ("field", "OverlapResult", "start", o.self),
+                ("field", "OverlapResult", "g_lo", o.self), ("field", "OverlapResult", "g_ts", o.self)]
+
+    @staticmethod
+    def ghost_exit(o, n, res, st):
+        set_ghost(st, n.self, g_lo=o.self.g_lo + (o.self.rows.len - n.self.rows.len), g_ts=z3.IntVal(0))
+
+    @staticmethod
+    def ensures(o, n, res):
+        src = o.self.g_src
+        return [
+            ("wf", wf(n.self, src=o.self.g_src)),
+            ("ghost", z3.And(ghost_same(o, n, ["g_src", "g_hi", "g_te"]), source_untouched(o, n))),
+            ("shrinks", z3.And(n.self.rows.len < o.self.rows.len, n.self.g_lo == o.self.g_lo + (o.self.rows.len - n.self.rows.len))),
+            ("only-gaps-skipped", forall(lambda k: z3.Implies(z3.And(1 <= k, k < o.self.rows.len - n.self.rows.len), o.self.rows[k].is_gap))),
+            ("suffix", z3.And(n.self.rows.same(o.self.rows), n.self.rows.arr == o.self.rows.arr, n.self.rows.hi == o.self.rows.hi)),
+            ("untrimmed-start", z3.Implies(n.self.rows.len > 0, n.self.g_ts == 0)),
+            ("end-bait", z3.And(n.self.end == o.self.end, n.self.bait.z == o.self.bait.z)),
+        ]
+
+    loops = {
+        0: LoopSpec(
+            kind="while",
+            inv=lambda v, e, o: (lambda rows, R0, src, lo0, n0, p: [
+                ("list", z3.And(rows.same(R0), rows.arr == R0.arr, rows.hi == R0.hi)),
+                ("popped", z3.And(1 <= p, p <= n0)),
+                ("gaps", forall(lambda k: z3.Implies(z3.And(1 <= k, k < p), R0[k].is_gap))),
+                ("start", v.self.start == 1 + src.cum(lo0 + p) - z3.If(n0 == 1, o.self.g_te, 0)),
+            ])(v.self.rows, o.self.rows, o.self.g_src, o.self.g_lo, o.self.rows.len, v.self.rows.lo - o.self.rows.lo),
+            variant=lambda v: v.self.rows.len,
+        )
+    }
+
+
+@contract(f"{M}.discard_end", properties=("C18", "C01"))
+class _:
+    params = {"self": OR}
+    result = NONE
+
+    @staticmethod
+    def requires(o):
+        return [("wf", wf(o.self)), ("nonempty", o.self.rows.len > 0)]
+
+    @staticmethod
+    def modifies(o):
+        return [("list", ROW, o.self.rows), ("field", "OverlapResult", "end", o.self),
+                ("field", "OverlapResult", "g_hi", o.self), ("field", "OverlapResult", "g_te", o.self)]
+
+    @staticmethod
+    def ghost_exit(o, n, res, st):
+        set_ghost(st, n.self, g_hi=o.self.g_hi - (o.self.rows.len - n.self.rows.len), g_te=z3.IntVal(0))
+
+    @staticmethod
+    def ensures(o, n, res):
+        src = o.self.g_src
+        return [
+            ("wf", wf(n.self, src=o.self.g_src)),
+            ("ghost", z3.And(ghost_same(o, n, ["g_src", "g_lo", "g_ts"]), source_untouched(o, n))),
+            ("shrinks", z3.And(n.self.rows.len < o.self.rows.len, n.self.g_hi == o.self.g_hi - (o.self.rows.len - n.self.rows.len))),
+            ("only-gaps-skipped", forall(lambda k: z3.Implies(z3.And(1 <= k, k < o.self.rows.len - n.self.rows.len), o.self.rows[o.self.rows.len - 1 - k].is_gap))),
+            ("prefix", z3.And(n.self.rows.same(o.self.rows), n.self.rows.arr == o.self.rows.arr, n.self.rows.lo == o.self.rows.lo)),
+            ("untrimmed-end", z3.Implies(n.self.rows.len > 0, n.self.g_te == 0)),
+            ("start-bait", z3.And(n.self.start == o.self.start, n.self.bait.z == o.self.bait.z)),
+        ]
+
+    loops = {
+        0: LoopSpec(
+            kind="while",
+            inv=lambda v, e, o: (lambda rows, R0, src, hi0, n0, p: [
+                ("list", z3.And(rows.same(R0), rows.arr == R0.arr, rows.lo == R0.lo)),
+                ("popped", z3.And(1 <= p, p <= n0)),
+                ("gaps", forall(lambda k: z3.Implies(z3.And(1 <= k, k < p), R0[n0 - 1 - k].is_gap))),
+                ("end", v.self.end == src.cum(hi0 + 1 - p) + z3.If(n0 == 1, o.self.g_ts, 0)),
+            ])(v.self.rows, o.self.rows, o.self.g_src, o.self.g_hi, o.self.rows.len, o.self.rows.hi - v.self.rows.hi),
+            variant=lambda v: v.self.rows.len,
+        )
+    }
+
+
+def start_overlap(s):
+    return isect_size(s.bait.start, s.bait.end, s.start, s.start + s.rows[0].length - 1)
+
+
+def end_overlap(s):
+    return isect_size(s.bait.start, s.bait.end, s.end - s.rows[-1].length + 1, s.end)
+
+
+@contract(f"{M}.trim_large_overhangs", properties=("C18", "C02"))
+class _:
+    params = {"self": OR, "err_length": INT}
+    result = NONE
+
+    @staticmethod
+    def requires(o):
+        return [("wf", wf(o.self)), ("nonempty", o.self.rows.len > 0)]
+
+    @staticmethod
+    def modifies(o):
+        return [("list", ROW, o.self.rows), ("field", "OverlapResult", "start", o.self), ("field", "OverlapResult", "end", o.self),
+                ("field", "OverlapResult", "g_lo", o.self), ("field", "OverlapResult", "g_ts", o.self),
+                ("field", "OverlapResult", "g_hi", o.self), ("field", "OverlapResult", "g_te", o.self)]
+
+    @staticmethod
+    def ensures(o, n, res):
+        s = o.self
+        e = o.err_length
+        keep_single = z3.And(s.rows.len == 1, s.bait.length > e)
+        # C02: "discards a terminal row iff its overhang exceeds the error length and its overlap with
+        # the bait is shorter than the error length"
+        d_start = z3.And(z3.Not(keep_single), s.bait.start - s.start > e, start_overlap(s) < e)
+        return [
+            ("wf", wf(n.self, src=o.self.g_src)),
+            ("ghost", z3.And(ghost_same(o, n, ["g_src"]), source_untouched(o, n))),
+            ("start-row-discarded-iff", (n.self.g_lo != s.g_lo) == d_start),
+            ("end-untouched-when-kept", z3.Implies(keep_single, z3.And(n.self.end == s.end, n.self.rows.len == 1))),
+            ("end-row-discarded-only-if-overhanging", z3.Implies(n.self.g_hi != s.g_hi, z3.And(z3.Not(keep_single), s.end - s.bait.end > e))),
+            ("same-list", n.self.rows.same(s.rows)),
+            ("bait", n.self.bait.z == s.bait.z),
+        ]
+
+
+@contract(f"{M}.fragment_start_if_trimmed", properties=("C18", "C02"))
+class _:
+    params = {"self": OR, "frag": FRAG}
+    result = INT
+
+    @staticmethod
+    def requires(o):
+        return o.self.rows.len > 0
+
+    @staticmethod
+    def ensures(o, n, res):
+        s, f = o.self, o.frag
+        first, last = s.rows[0].z == f.z, s.rows[-1].z == f.z
+        # the start coordinate trim_fragment(frag) gives when the whole overhang on that side is cut
+        want = z3.If(z3.And(f.strand == 1, first), f.start + (s.bait.start - s.start),
+                     z3.If(z3.And(f.strand != 1, last), f.start + (s.end - s.bait.end), f.start))
+        return res == want
+
+
+@contract(f"{M}.trim_fragment", properties=("C18", "C02", "C01"))
+class _:
+    params = {"self": OR, "trim": FRAG, "keep_start": BOOL, "keep_end": BOOL}
+    result = FRAG
+
+    @staticmethod
+    def requires(o):
+        return [("wf", wf(o.self)), ("nonempty", o.self.rows.len > 0)]
+
+    @staticmethod
+    def modifies(o):
+        return [("list", ROW, o.self.rows), ("field", "OverlapResult", "start", o.self), ("field", "OverlapResult", "end", o.self),
+                ("field", "OverlapResult", "g_ts", o.self), ("field", "OverlapResult", "g_te", o.self), ("ralloc",)]
+
+    @staticmethod
+    def cuts(o):
+        s, t = o.self, o.trim
+        first, last = s.rows[0].z == t.z, s.rows[-1].z == t.z
+        so0, eo0 = s.bait.start - s.start, s.end - s.bait.end
+        so = z3.If(z3.And(first, so0 > 0, z3.Not(o.keep_start)), so0, 0)
+        eo = z3.If(z3.And(last, eo0 > 0, z3.Not(o.keep_end)), eo0, 0)
+        return first, last, so, eo
+
+    # "sequences the operations accept": refused when the fragment is not terminal or nothing would be left
+    raises = {
+        "ValueError": lambda o: (lambda first, last, so, eo: z3.Or(z3.And(z3.Not(first), z3.Not(last)), o.trim.length - so - eo < 1))(
+            *REGISTRY_CUTS(o)
+        )
+    }
+
+    @staticmethod
+    def ghost_exit(o, n, res, st):
+        first, last, so, eo = REGISTRY_CUTS(o)
+        set_ghost(st, n.self, g_ts=o.self.g_ts + so, g_te=o.self.g_te + eo)
+
+    @staticmethod
+    def ensures(o, n, res):
+        s, t = o.self, o.trim
+        first, last, so, eo = REGISTRY_CUTS(o)
+        rows0, rows1 = s.rows, n.self.rows
+        pos = z3.If(last, rows0.len - 1, 0)
+        return [
+            ("terminal", z3.Or(first, last)),
+            ("piece", z3.And(res.is_frag, res.name == t.name, res.strand == t.strand,
+                             z3.If(t.strand == 1,
+                                   z3.And(res.start == t.start + so, res.end == t.end - eo),
+                                   z3.And(res.start == t.start + eo, res.end == t.end - so)))),
+            ("sub-interval", z3.And(t.start <= res.start, res.end <= t.end)),
+            ("span", z3.And(n.self.start == s.start + so, n.self.end == s.end - eo)),
+            # C02: "a cut point ... splits the contig exactly at the position the Pretext coordinate designates"
+            ("cut-to-bait", z3.And(z3.Implies(so > 0, n.self.start == s.bait.start), z3.Implies(eo > 0, n.self.end == s.bait.end))),
+            ("rows", z3.And(rows1.same(rows0), rows1.len == rows0.len, rows1.lo == rows0.lo, rows1[pos].z == res.z,
+                            forall(lambda k: z3.Implies(z3.And(0 <= k, k < rows0.len, k != pos), rows1[k].z == rows0[k].z)))),
+            ("cut-tag", z3.Contains(res.tags, z3.Unit(z3.StringVal("Cut")))),
+            ("new-object", z3.And(res.oid >= o.ralloc, res.oid < n.ralloc)),
+            *wf_parts(n.self, src=o.self.g_src),
+            ("ghost", z3.And(ghost_same(o, n, ["g_src", "g_lo", "g_hi"]), source_untouched(o, n),
+                             n.self.g_ts == s.g_ts + so, n.self.g_te == s.g_te + eo)),
+            ("bait", n.self.bait.z == s.bait.z),
+        ]
+
+
+def REGISTRY_CUTS(o):
+    from pyvc.spec import REGISTRY
+
+    return REGISTRY[f"{M}.trim_fragment"].cuts(o)
+
+
+@contract(f"{M}.to_scaffold", properties=("C14", "C02", "C07"))
+class _:
+    params = {"self": OR}
+    result = TRef("Scaffold")
+
+    @staticmethod
+    def modifies(o):
+        return [("fresh-objs", "Scaffold", scaffold_fields()), ("fresh-lists", ROW), ("alloc",), ("ralloc",)]
+
+    @staticmethod
+    def ensures(o, n, res):
+        from .scaffold import reversed_of
+
+        s = o.self
+        # C02: "oriented as input orientation x piece orientation": reversed iff the bait is on the minus strand
+        return [
+            ("rows", z3.If(s.bait.strand == -1, reversed_of(res.rows, s.rows), same_rows(res.rows, s.rows))),
+            ("fresh", z3.And(res.z >= o.alloc, res.rows.z >= o.alloc)),
+            ("name", res.name == s.name),
+            ("self-untouched", z3.And(n.self.rows.same(s.rows), n.self.rows.len == s.rows.len, n.self.rows.arr == s.rows.arr, n.self.rows.lo == s.rows.lo)),
+        ]
